@@ -198,10 +198,12 @@ func checkH2(c H2Case, o *vf.Obs) error {
 		seen[entryIndex(r.RequestURI)] = true
 	}
 	failedHs := 0
+	hsKinds := map[string]bool{}
 	for _, h := range hss {
 		if h != target.HsOK {
 			failedHs++
-			o.Class("hs_" + h)
+			o.ClassIf(!hsKinds[h], "hs_"+h) // once per case
+			hsKinds[h] = true
 		}
 	}
 	notSeen, mis, goodAfterBad := 0, 0, false
@@ -375,6 +377,7 @@ func checkH2Scen(c H2ScenCase, o *vf.Obs) error {
 		return fmt.Errorf("%d scenario invocations left samples, %d were shot\n%s\n%s", len(groups), c.Shots, data, yaml)
 	}
 	bad, goodAfterBad, goodAfterAlert, alertSeen := 0, false, false, false
+	hsKinds := map[string]bool{}
 	for j, g := range groups {
 		if len(g) > len(c.Steps) {
 			return fmt.Errorf("invocation %d left %d samples for %d steps\n%s", j, len(g), len(c.Steps), data)
@@ -401,7 +404,8 @@ func checkH2Scen(c H2ScenCase, o *vf.Obs) error {
 			case n < len(c.Handshakes) && c.Handshakes[n] != target.HsOK:
 				allGood = false
 				bad++
-				o.Class("hs_" + c.Handshakes[n])
+				o.ClassIf(!hsKinds[c.Handshakes[n]], "hs_"+c.Handshakes[n]) // once per case
+				hsKinds[c.Handshakes[n]] = true
 				alertSeen = alertSeen || isAlert(c.Handshakes[n])
 				if clean(l) {
 					return fmt.Errorf("attempted step %d never reached the target (handshake %s) but its sample is a clean 200\n%s", n, c.Handshakes[n], data)
